@@ -177,6 +177,10 @@ def parse_results(d):
                             res["taint"][f[1]] = w[8:]
                         if w.startswith("heal="):
                             res["heal"][f[1]] = tuple(int(x) for x in w[5:].split("/"))
+                        if w.startswith("undecided="):
+                            res["undecided"] = res.get("undecided", 0) + int(w[10:])
+                        if w.startswith("excepted="):
+                            res["excepted"] = res.get("excepted", 0) + int(w[9:])
                 elif line.startswith("A "):
                     f = line.split()
                     res["act"][f[1]] = {kv.split("=")[0]: int(kv.split("=")[1]) for kv in f[2:]}
@@ -259,6 +263,8 @@ def run(pid, spec, tier, seed, key):
         ok = sum(h[1] for h in r["heal"].values())
         rounds = sorted(h[2] for h in r["heal"].values() if h[1])
         out["per_tag"]["fault_free_suffixes"] = {"run": runs, "converged": ok,
+                                                 "documented_two_voter_exception": r.get("excepted", 0),
+                                                 "undecided_long_elections": r.get("undecided", 0),
                                                  "ticks_to_converge_median": rounds[len(rounds) // 2] if rounds else 0,
                                                  "ticks_to_converge_max": rounds[-1] if rounds else 0}
     cov = sorted(r["cov"].items(), key=lambda x: -x[1])
